@@ -160,16 +160,9 @@ active_region = Contract(
 
 
 # ------------------------------------------------------------------------------------------------ inversion for a given target
-def _newton_result(mk, a):
-    r = mk.real("u_root")
-    mk.st.ghost["solver_calls"] = mk.st.ghost.get("solver_calls", ()) + (a,)
-    return r
-
-
-# the solver at its call site: result by its proved contract (`newton` above) - value >= 0, may raise; the arguments of every call are recorded
-NEWTON_AT_CALL = CalleeContract(newton.target, _newton_result, requires=newton.requires, ensures=[(l, f) for l, f in newton.ensures], assumed=False,
-                                note="proved above (numba_newton_raphson): result >= 0 for guess >= 0 and hard bounds (0, inf); may raise")
-NEWTON_AT_CALL.may_raise = ("ValueError",)
+# the solver at its call site: the exit contract proved in contracts/newton_common.py (preconditions are call-site obligations, exit clauses assumed for
+# the result, ValueError may escape); every call is recorded as (raw arguments, exit record)
+NEWTON_AT_CALL = newton_at_call("solver_calls")
 STRESS = CalleeContract(B + "stress.py::_total_stress_point", lambda mk, a: (mk.real("stress"), mk.real("stress_direction")), assumed=True,
                         note="total stress and its direction: some reals (used only when the direction is iterated)")
 
@@ -202,13 +195,14 @@ def _solved_equation(a, r):
     """every solver call is for F of *this* spectrum, depth, target and rate of change, from a non-negative start, within (0, inf), step tolerance 0.01"""
     calls = a._ghost.get("solver_calls", ())
     cl = []
-    for c in calls:
+    for c, _x in calls:
         fa = c.function_arguments
         cl += [getattr(c.function, "qualname", "") == "_u10_iteration_function", _same(fa[1], a._raw["variance_density"]),
                fa[2][2] == "u10", _same(fa[3], a._raw["depth"]) or eq(fa[3], a.depth), _same(fa[4], a._raw["wind_source_term_function"]),
                _same(fa[5], a._raw["tail_stress_parametrization_function"]), _same(fa[6], a._raw["spectral_grid"]), _same(fa[7], a._raw["parameters"]),
                eq(fa[8], a.bulk_rate), _same(fa[9], a._raw["time_derivative_spectrum"]), eq(fa[2][0], c.guess),
-               c.hard_bounds[0] == 0, _T._is_inf(c.hard_bounds[1]), c.atol == _T.from_float(1.0e-2)]
+               c.hard_bounds[0] == 0, _T._is_inf(c.hard_bounds[1]), c.atol == _T.from_float(1.0e-2), c.rtol == 1, c.error_on_max_iter is True,
+               c.max_iterations == 100, c.aitken_acceleration is False]
     return And(*cl) if cl else True
 
 
@@ -220,11 +214,25 @@ def _bp_result_clauses(direction_iteration):
     return cl
 
 
+def _converged_exit(a, r):
+    """a speed that comes out of the solver (errors on: only its convergence test lets it return): the last step |u - p| is below the 0.01 m/s step
+    tolerance (and below max(p, 0.01): rtol = 1) for the previous iterate p >= 0, the point of the last evaluation of the balance; the speed is
+    within the hard bounds [0, inf); with a bracket at exit it lies between two winds at which the balance has strictly opposite signs"""
+    calls = a._ghost.get("solver_calls", ())
+    if not calls:
+        return True                              # zero target, or the solver raised (NaN)
+    _c, x = calls[-1]
+    tol = _T.from_float(1.0e-2)
+    return And(len(calls) == 1, eq(r[0], x.result), x.converged, absv(x.result - x.previous) < tol,
+               absv(x.result - x.previous) < If(absv(x.previous) >= tol, absv(x.previous), tol), x.previous >= 0, x.result >= 0,
+               implies(x.bracketed, And(0 <= x.b_lo, x.b_lo < x.b_hi, x.b_lo <= x.result, x.result <= x.b_hi, x.F(x.b_lo) * x.F(x.b_hi) < 0)))
+
+
 def _first_wind(a, r):
     calls = a._ghost.get("solver_calls", ())
     if not calls:
         return True
-    return And(eq(calls[0].guess, a.guess_u10), eq(calls[0].function_arguments[2][1], a.guess_direction))
+    return And(eq(calls[0][0].guess, a.guess_u10), eq(calls[0][0].function_arguments[2][1], a.guess_direction))
 
 
 BP_INST = [("no_direction_iteration", _p_bulk_point(False)), ("direction_iteration", _p_bulk_point(True))]
@@ -233,7 +241,8 @@ bulk_rate_point = Contract(
     requires=[("guess_nonnegative", lambda a: a.guess_u10 >= 0)],
     ensures=_bp_result_clauses(False)[:2] + [(l, f, {"no_direction_iteration"}) for l, f in _bp_result_clauses(False)[2:]] + [
         ("solver_is_given_the_balance_of_this_spectrum_and_target", _solved_equation, {"no_direction_iteration"}),
-        ("first_solve_starts_from_the_guess_wind", _first_wind, {"no_direction_iteration"})],
+        ("first_solve_starts_from_the_guess_wind", _first_wind, {"no_direction_iteration"}),
+        ("returned_speed_left_the_solver_by_convergence_last_step_below_the_0.01_step_tolerance_within_bounds", _converged_exit, {"no_direction_iteration"})],
     callees={newton.target: NEWTON_AT_CALL, STRESS.target: STRESS},
     options={"loop_invariants": {"direction_iteration": {1: LoopContract(invariant=[("speed_nonnegative", lambda ns: ns.u10 >= 0)])}, "no_direction_iteration": {}},
              "result": lambda mk, a: (_T.xr(mk.real("u10_value"), mk.bool("u10_missing")), mk.real("direction"))},
